@@ -560,7 +560,7 @@ int hwloc_topology_diff_apply(hwloc_topology_t topology,
 			      unsigned long flags)
 {
 	hwloc_topology_diff_t tmpdiff, tmpdiff2;
-	int err, nr;
+	int err, nr, i, j;
 
 	if (!(topology->state & HWLOC_TOPOLOGY_STATE_IS_LOADED)) {
 	  errno = EINVAL;
@@ -588,11 +588,14 @@ int hwloc_topology_diff_apply(hwloc_topology_t topology,
 	return 0;
 
 cancel:
-	tmpdiff2 = tmpdiff;
-	tmpdiff = diff;
-	while (tmpdiff != tmpdiff2) {
-		hwloc_apply_diff_one(topology, tmpdiff, flags ^ HWLOC_TOPOLOGY_DIFF_APPLY_REVERSE);
-		tmpdiff = tmpdiff->generic.next;
+	/* cancel the nr-1 applied entries in reverse order,
+	 * the same attribute may have been modified several times.
+	 */
+	for(i=nr-1; i>0; i--) {
+		tmpdiff2 = diff;
+		for(j=1; j<i; j++)
+			tmpdiff2 = tmpdiff2->generic.next;
+		hwloc_apply_diff_one(topology, tmpdiff2, flags ^ HWLOC_TOPOLOGY_DIFF_APPLY_REVERSE);
 	}
 	errno = EINVAL;
 	return -nr; /* return the index (starting at 1) of the first element that couldn't be applied */
